@@ -190,6 +190,8 @@ func fbits(f float64) string {
 	return fmt.Sprintf("%x", math.Float64bits(f))
 }
 
+var canonSortTimers bool // timer values as a multiset (set while batches combined by the forwarder are compared)
+
 // canon renders a map exactly (bit patterns of floats, tag order, no timestamps, nil == empty tags)
 func canon(mm *gostatsd.MetricMap) string {
 	var parts []string
@@ -203,6 +205,9 @@ func canon(mm *gostatsd.MetricMap) string {
 		var vs []string
 		for _, v := range t.Values {
 			vs = append(vs, fbits(v))
+		}
+		if canonSortTimers {
+			sort.Strings(vs)
 		}
 		parts = append(parts, fmt.Sprintf("t|%q|%q|%q|%q|%v|%s", n, k, []string(t.Tags), t.Source, vs, fbits(t.SampledCount)))
 	})
@@ -222,6 +227,34 @@ type rtcase struct {
 	Series []sd
 	Event  *gostatsd.Event
 	Comp   comp
+	// Apart: every series is dispatched to the forwarder as a batch of its own, in order, before the one
+	// flush; series with the same key are then combined by the forwarder (Fold is the reference).
+	Apart bool
+}
+
+// fold combines series of one key the way batches combine: counters add, timer values unite with the
+// sampled counts added, sets unite; gauges of one key are not put in these cases (all carry one timestamp).
+func fold(ss []sd) []sd {
+	idx := map[string]int{}
+	var out []sd
+	for _, s := range ss {
+		k := s.Type + "|" + s.Name + "|" + s.Source + "|" + strings.Join(s.Tags, ",")
+		i, ok := idx[k]
+		if !ok {
+			idx[k] = len(out)
+			c := s
+			c.Vals = append([]F{}, s.Vals...)
+			c.Members = append([]string{}, s.Members...)
+			out = append(out, c)
+			continue
+		}
+		o := &out[i]
+		o.I += s.I
+		o.Vals = append(o.Vals, s.Vals...)
+		o.SC += s.SC
+		o.Members = append(o.Members, s.Members...)
+	}
+	return out
 }
 
 func newForwarder(c comp, rec *fx.Recorder) (*statsd.HttpForwarderHandlerV2, *bridge, error) {
@@ -258,7 +291,13 @@ func roundTrip(tc rtcase) {
 			h.DispatchEvent(ctx, &e)
 			h.WaitForEvents()
 		} else {
-			h.DispatchMetricMap(ctx, buildMap(tc.Series))
+			if tc.Apart {
+				for _, one := range tc.Series {
+					h.DispatchMetricMap(ctx, buildMap([]sd{one}))
+				}
+			} else {
+				h.DispatchMetricMap(ctx, buildMap(tc.Series))
+			}
 			vsched.Quiesce("dispatched")
 			vtime.Advance(mock, time.Second)
 		}
@@ -295,13 +334,19 @@ func roundTrip(tc rtcase) {
 	}
 	// first request is the forwarder's start-up no-op (an empty map): it must dispatch an empty map or nothing
 	var valid, invalid []sd
-	for _, s := range tc.Series {
+	given := tc.Series
+	if tc.Apart {
+		given = fold(tc.Series)
+	}
+	for _, s := range given {
 		if s.validUTF8() {
 			valid = append(valid, s)
 		} else {
 			invalid = append(invalid, s.sanitized())
 		}
 	}
+	canonSortTimers = tc.Apart
+	defer func() { canonSortTimers = false }()
 	want := canon(buildMap(valid))
 	var got []string
 	for _, m := range rec.Maps {
@@ -499,6 +544,30 @@ func runRoundtrip() {
 						roundTrip(rtcase{Series: []sd{menu[a], menu[b], menu[d]}, Comp: c})
 					}
 				}
+			}
+		}
+	}
+	// batches dispatched one after the other and combined by the forwarder before its flush
+	colliding := [][]sd{
+		{{Type: "c", Name: "a", Tags: []string{"t"}, Source: "h", I: 3}, {Type: "c", Name: "a", Tags: []string{"t"}, Source: "h", I: 4}},
+		{{Type: "c", Name: "a", I: 1}, {Type: "c", Name: "a", I: math.MaxInt64 - 1}, {Type: "c", Name: "a", Source: "h", I: 2}},
+		{{Type: "t", Name: "a", Tags: []string{"t"}, Vals: []F{1, 2}, SC: 2.5}, {Type: "t", Name: "a", Tags: []string{"t"}, Vals: []F{3}, SC: 4}},
+		{{Type: "t", Name: "a", Vals: []F{5}, SC: 1}, {Type: "t", Name: "a", Vals: []F{}, SC: 0}, {Type: "t", Name: "a", Vals: []F{5, 5}, SC: 20}},
+		{{Type: "s", Name: "a", Source: "h", Members: []string{"x"}}, {Type: "s", Name: "a", Source: "h", Members: []string{"x", "y"}}},
+		{{Type: "s", Name: "a", Members: []string{}}, {Type: "s", Name: "a", Members: []string{"z"}}, {Type: "s", Name: "a", Members: []string{}}},
+		{{Type: "c", Name: "a", I: 1}, {Type: "t", Name: "a", Vals: []F{1}, SC: 1}, {Type: "s", Name: "a", Members: []string{"m"}}, {Type: "g", Name: "a", F: 2}, {Type: "c", Name: "a", I: 1}},
+		{{Type: "t", Name: "bad.t", Tags: []string{"t"}, Source: "h\x80", Vals: []F{1, 2}, SC: 8}, {Type: "t", Name: "a", Vals: []F{1}, SC: 4}, {Type: "t", Name: "a", Vals: []F{2}, SC: 4}},
+	}
+	for _, c := range cs {
+		for _, ss := range colliding {
+			i++
+			if vrt.Mine(i) {
+				roundTrip(rtcase{Series: ss, Comp: c, Apart: true})
+				rev := append([]sd{}, ss...)
+				for l, r := 0, len(rev)-1; l < r; l, r = l+1, r-1 {
+					rev[l], rev[r] = rev[r], rev[l]
+				}
+				roundTrip(rtcase{Series: rev, Comp: c, Apart: true})
 			}
 		}
 	}
